@@ -621,7 +621,10 @@ GRIget_image_list(int32 file_id, gr_info_t *gr_ptr)
                 switch (grp_tag) {
                     case DFTAG_VG: /* should be an image */
                         if ((img_key = Vattach(file_id, grp_ref, "r")) != FAIL) {
-                            if (Vgetclass(img_key, textbuf) != FAIL) {
+                            uint16 cls_len = 0; /* a class that does not fit is not an image's class */
+
+                            if (Vgetclassnamelen(img_key, &cls_len) != FAIL && cls_len <= VGNAMELENMAX &&
+                                Vgetclass(img_key, textbuf) != FAIL) {
                                 if (!strcmp(textbuf, RI_NAME)) { /* it is an image, get the image's tag/ref */
                                     for (j = 0; j < Vntagrefs(img_key); j++) {
                                         if (Vgettagref(img_key, j, &img_tag, &img_ref) == FAIL)
